@@ -14,8 +14,8 @@ import subprocess
 
 import common
 
-CONFIGS = {"quick": ["list4", "groups2x2", "groups321", "mixed", "coupled"],
-           "thorough": ["list4", "groups2x2", "groups321", "mixed", "coupled", "groups4x2", "groups133"]}
+CONFIGS = {"quick": ["list4", "groups2x2", "groups321", "mixed", "coupled", "twogrouped", "groups26"],
+           "thorough": ["list4", "groups2x2", "groups321", "mixed", "coupled", "twogrouped", "groups26", "groups4x2", "groups133"]}
 BUDGET = {"quick": (3, 260), "thorough": (5, 6000)}  # exhaustive depth, max states per configuration
 
 
@@ -44,6 +44,35 @@ def validate(args):
     return viols[-1] if viols else []
 
 
+def groups_needed(pool, amount):
+    """smallest number of groups whose free whole indices cover the amount (fractions rounded up) - for signatures only"""
+    units = -(-amount // 10000)
+    n = got = 0
+    for k in sorted((len(g) for g in pool["free"]), reverse=True):
+        if got >= units:
+            break
+        got += k
+        n += 1
+    return n if got >= units else None
+
+
+def refusal_reason(line):
+    """characteristic facts of the two analysed kinds of spurious refusal of a request with a strict entry"""
+    pre, ps0 = line["pre"]["pools"], line["ps0"]
+    grouped = [e for e in line["rq"] if pre[e["r"]]["kind"] == "groups" and e["policy"] != "all"]
+    strict = [e for e in grouped if e["policy"].endswith("!")]
+    loose = [e for e in grouped if not e["policy"].endswith("!")]
+    now = {id(e): groups_needed(pre[e["r"]], e["amount"]) for e in grouped}
+    empty = {id(e): groups_needed(ps0[e["r"]], e["amount"]) for e in grouped}
+    if not strict or any(now[id(e)] is None or now[id(e)] != empty[id(e)] for e in strict):
+        return ""
+    if any(now[id(e)] is not None and now[id(e)] > empty[id(e)] for e in loose):
+        return "/every-strict-entry-fits-its-minimum;a-non-strict-entry-needs-more-groups-than-on-the-empty-worker"
+    if any(len({len(g) for g in ps0[e["r"]]["free"]}) > 1 for e in strict):
+        return "/strict-entry-fits-its-minimum-number-of-groups;groups-of-unequal-size"
+    return ""
+
+
 def signature(formula, line):
     """formula + policy shape + the characteristic fact of the transition"""
     pol = "+".join(sorted(e["policy"] for e in line["rq"])) or line["op"]
@@ -54,6 +83,8 @@ def signature(formula, line):
         whole_groups = {x["g"] for x in idx if x["f"] == 0}
         if fr and fr[0]["g"] in whole_groups:
             extra = "/fraction-from-a-group-that-also-gave-a-whole-index"
+    if formula == "C16_NoSpuriousRefusal":
+        extra = refusal_reason(line)
     if line.get("pan"):
         extra = "/" + os.path.basename(line.get("ploc", "").split(":")[0])
     return f"{formula}:{pol}{extra}"
